@@ -242,6 +242,9 @@ impl Writer { pub uninterp spec fn depth(&self) -> int; }
 pub open spec fn pivot_balance(p: Option<OutputEvent>) -> int { if p is Some && is_start_event(p->Some_0) { 1 } else { 0 } }
 pub uninterp spec fn is_start_event(e: OutputEvent) -> bool;     // OutputEvent::Start(_)
 pub uninterp spec fn is_empty_event(e: OutputEvent) -> bool;     // OutputEvent::Empty(_)
+/// the first Start / Empty element of that name in the list (what partition() hands out as pivot)
+pub uninterp spec fn pivot_of(l: OutputList, name: Seq<char>) -> Option<OutputEvent>;
+pub uninterp spec fn root_end_spec() -> OutputList;
 impl OutputList {
     #[verifier::external_body]
     pub fn write_to(&self, writer: &mut Writer) -> (r: Result<()>)
@@ -253,13 +256,14 @@ impl OutputList {
     pub fn partition(&self, name: &str) -> (r: (OutputList, Option<OutputEvent>, OutputList))
         ensures balance(*self) == balance(r.0) + pivot_balance(r.1) + balance(r.2),
             r.1 is None ==> balance(r.2) == 0,
+            r.1 == pivot_of(*self, name@),
             r.1 is Some ==> (is_start_event(r.1->Some_0) != is_empty_event(r.1->Some_0)),      // the pivot is a Start or an Empty element
     { unimplemented!() }
     #[verifier::external_body]
     pub fn debug_header(config: &TransformConfig) -> (r: OutputList) ensures balance(r) == 0 { unimplemented!() }
     /// R-abstract: `OutputList::from([OutputEvent::End("svg".to_owned())].as_slice())`: one end tag
     #[verifier::external_body]
-    pub fn root_end() -> (r: OutputList) ensures balance(r) == -1 { unimplemented!() }
+    pub fn root_end() -> (r: OutputList) ensures balance(r) == -1, r == root_end_spec() { unimplemented!() }
 }
 //@item src/transform.rs :: struct Transformer
 //@end
@@ -296,6 +300,8 @@ impl Transformer {
 //@ ensures
 //@ - self.context.real_svg ==> final(writer).log() == old(writer).log().push(WriteOp::List(output.0))     @@C03.post.none @@C05.post.none
 //@ - r is Ok ==> final(writer).depth() == old(writer).depth() + balance(output.0)     @@C02.root.closed
+//@ - r is Ok && !self.context.real_svg && pivot_of(output.0, "svg"@) is Some && is_empty_event(pivot_of(output.0, "svg"@)->Some_0) ==>
+//@       final(writer).log().len() > 0 && final(writer).log().last() == WriteOp::List(root_end_spec())     @@C02.root.end_tag_last
 //@end
 }
 
